@@ -393,6 +393,9 @@ class Dimension:
 
     def scale(self, zero: "Quantity", name: str, symbol: str) -> "Unit":
         """Define a new scale of this dimension, setting a zero point of another unit"""
+        # the zero point is looked at before the unit is defined, so that one that cannot
+        # be used does not leave a unit behind without its scale
+        conversions.zero_point(zero)
         unit = self.unit(name, symbol)
         conversions.translate(unit, zero)
         return unit
